@@ -105,13 +105,16 @@ Definition name_of (e : option entry) : list N :=
 
 Definition nilb {A} (l : list A) : bool := match l with [] => true | _ => false end.
 
+(* the name regexp is not consulted for the empty name of a missing side *)
+Definition name_hit (f : fcfg) (p : list N) : bool := negb (nilb p) && f_name f p.
+
 (* one iteration of the loop of filterDiffs: is the change kept? *)
 Definition keep (f : fcfg) (c : change) : bool :=
   let tn := name_of (c_to c) in
   let fn := name_of (c_from c) in
   if negb (nilb (f_skip f)) && (f_vendor f tn || f_vendor f fn) then false
   else if existsb (fun d => prefixb d tn || prefixb d fn) (f_skip f) then false
-  else if f_name_set f && negb (f_name f tn) && negb (f_name f fn) then false
+  else if f_name_set f && negb (name_hit f tn) && negb (name_hit f fn) then false
   else match c_to c, c_from c with
        | Some e, _ => check_language f (e_path e) (e_hash e)      (* change.To.Tree != nil *)
        | None, Some e => check_language f (e_path e) (e_hash e)
@@ -192,8 +195,9 @@ Fixpoint nodup_paths (l : list (list N)) : bool :=
   | p :: r => negb (existsb (path_eqb p) r) && nodup_paths r
   end.
 
-(* a tree lists every path once *)
-Definition tree_wfb (t : list entry) : bool := nodup_paths (map e_path t).
+(* a tree lists every path once and no path is empty *)
+Definition tree_wfb (t : list entry) : bool :=
+  nodup_paths (map e_path t) && forallb (fun e => negb (nilb (e_path e))) t.
 
 (* the validator: every reported change is the expected change of its path, no path is reported
    twice, and every path whose restricted entries differ is reported *)
@@ -220,9 +224,8 @@ Definition flip_free (f : fcfg) (prev cur : list entry) : bool :=
                     | None => true
                     end) prev.
 
-(* the external predicates behave on the empty name as the filter loop silently assumes *)
-Definition empty_name_inert (f : fcfg) : bool :=
-  negb (f_vendor f []) && negb (f_name_set f && f_name f []).
+(* enry.IsVendor behaves on the empty name of a missing side as the filter loop silently assumes *)
+Definition empty_name_inert (f : fcfg) : bool := negb (f_vendor f []).
 
 (* file sets as finite maps and the strict application of a change list *)
 Definition fset := list N -> option entry.
